@@ -716,4 +716,29 @@ theorem firePosted_sched (O : Ops K) (hfw : ∀ t phi, ¬ O.fireAt t phi < t) (u
     simp only [mkProc]
     exact ⟨key.nopast, fun m y ⟨id, a, b⟩ => key.within m y ⟨id, by rw [← t2]; exact a, b⟩⟩
 
+/-! ### non-vacuity -/
+
+section Examples
+
+/-- a toy arithmetic over ℕ: every firing is scheduled one time unit ahead -/
+def toyOps : Ops Nat :=
+  { phaseOf := fun _ _ => 0, fireAt := fun t _ => t + 1, state := id, bump := id, ofState := id, isEnd := fun x => x == 0, zero := 0, start := 0 }
+
+instance : Dyn.Arith Nat := ⟨0, 1, (· + ·), (· * ·), id, (· == 0), fun a _ => a⟩
+
+example : ∀ t phi : Nat, ¬ toyOps.fireAt t phi < t := by intro t phi; simp [toyOps]
+
+def toyU : U Nat := { nodes := [0, 1], adj := fun n => if n = 0 then [1] else [0], rng := [3, 4] }
+
+/-- the hypotheses of `start_one` are satisfiable, so `One []` is reached: two nodes, two random numbers -/
+example : One [] (exec (initPhases toyOps toyU.nodes)
+    ({ q := { heap := [], finder := [], nextId := 0, now := toyOps.start }, u := toyU } : St Nat (U Nat) Node)) :=
+  start_one toyOps (by intro t phi; simp [toyOps]) toyU rfl (by decide)
+
+/-- … and the bound hypotheses of `firePosted_sched` hold for `ub t = t + 1` -/
+example : (∀ t phi : Nat, toyOps.fireAt t phi ≤ t + 1) ∧ (∀ a b : Nat, a ≤ b → a + 1 ≤ b + 1) :=
+  ⟨fun t phi => Nat.le_refl _, fun a b h => by omega⟩
+
+end Examples
+
 end C20
